@@ -22,3 +22,9 @@ func (rt *Transfer) VerifDeleteFiles(names []string) error {
 	}
 	return rt.deleteFiles(fl)
 }
+
+// VerifRecvGenerator exposes recvGenerator for a single entry.
+func (rt *Transfer) VerifRecvGenerator(idx int, f *File) error { return rt.recvGenerator(idx, f) }
+
+// VerifTouchUpDirs exposes touchUpDirs.
+func (rt *Transfer) VerifTouchUpDirs(fl []*File) error { return rt.touchUpDirs(fl) }
